@@ -9,5 +9,12 @@ def run(res, a):
     conc.run_lockstep(res, "C08", a.seed, a.tier)
     res.cov["rule"] = ("scheduler harness, mode tfree: after a random phase all blocks are freed by whichever thread gets there first, then every owner "
                        "runs a forced collect and its heap must hold no pages (page_count = 0); at quiescence the main heap must report no blocks; a run "
-                       "that exhausts the step budget is reported as livelock. distinct = distinct schedules")
-    res.assumptions += ["'bounded memory' is checked structurally (nothing stays behind at quiescence), not as a resident-set measurement"]
+                       "that exhausts the step budget is reported as livelock. mode prodcons (harness/prodcons.h): 1-2 owner threads allocate into a ring "
+                       "of 16 slots each (sizes 40000/70000 in stretches so that pages fill up, plus 200000, 9000, 4000, 1000; a quarter of the slots "
+                       "long-lived), 1-3 consumer threads free them remotely, 4800-16000 allocations per owner; after every allocation the owner's heap "
+                       "must satisfy: blocks counted as used whose free has returned <= (L + threads) + 2*D and page_count <= 2*(L + threads) + 2*D + 6 "
+                       "(L = live-block bound, D = 100 = drain period of the delayed-free list, 16 with explicit collects); oracle `unbounded`. "
+                       "distinct = distinct schedules")
+    res.assumptions += ["'bounded memory' is checked as a bound on the owner heap's pages and on its remotely freed but unreclaimed blocks that does not "
+                        "depend on the length of the run (measured maxima and bounds: input_distribution.prodcons_bounded_memory), and structurally "
+                        "(nothing stays behind at quiescence); it is not a resident-set measurement"]
